@@ -681,6 +681,7 @@ CLAUSES = {
 
 
 def explore(ctx):
+    ctx.use_thorough_bounds('thorough bounds take about fifteen seconds')
     ctx.bound("keys", P.KEYS30)
     ctx.bound("major_keys", MAJOR_KEYS)
     ctx.bound("suffixes", len(H.SUFFIXES))
